@@ -14,11 +14,20 @@ RULE = ("polynomials of degree 1..12 over f64 and Complex<f64>, each with and wi
         "where possible), random coefficients of mixed sign and scale (ratio <= 1e6) with vanishing constant/inner coefficients, "
         "closed-form special branches (b = 0, c = 0, d0 = 0, d1 purely imaginary, triple root), quadratics/cubics with coefficient "
         "magnitudes 1e-3..1e3 and real-/imaginary-dominated phases, sparse x^n + a x^k + b, degree 0 and the empty coefficient list; "
+        "structured special-value families (findings/special-values-specA/C10-table.md): coefficients iid from the alphabet {0, +-1, +-i, +-2, +-2i, 1/2, -i/2, "
+        "0.6+0.8i, -0.8+0.6i, 0.6-0.8i, 1+-i, -1+i} (degrees 1..5) and from {0, +-1, +-2, +-1/2, 3}; quadratics with a prescribed discriminant class "
+        "(zero, +-real, +-imaginary, off-axis square) for leading coefficients on the axes / diagonals; cubics by the class of (d0, d1, dis): shifted pure cubes, "
+        "depressed, double root, roots in arithmetic progression; roots from an exact alphabet (0, +-1, +-i, +-2, +-2i, 1/2, -i/2, +-1+-i) with and without "
+        "repetitions, degrees 2..8; every coefficient times a unit (-1, +-i, 0.6+0.8i, ...) and the variable rotated by -1, +-i; all coefficients times 2^+-30, 2^+-60; "
+        "monomials a x^n, zero roots of multiplicity 4..n-1, all-equal / alternating / binomial coefficients; -0.0 for vanishing coefficients and imaginary parts "
+        "(both entry points); leading / trailing coefficient 2^+-16 times the others; the same object asked twice (every ordered pair of refine flags), its clone, "
+        "a fresh object (executor kind roots.twice); quick tier = a seed-rotated sample of each class; "
         "distinct = distinct executor line; non-trivial = degree >= 2")
-TRUSTED = ["Coq 8.16.1 kernel + vm_compute (primitive binary64)", "Rust executor /verif/harness (kind roots.solve; harness/build.rs detects the hook)",
+TRUSTED = ["Coq 8.16.1 kernel + vm_compute (primitive binary64)", "Rust executor /verif/harness (kinds roots.solve, roots.twice, roots.prim; harness/build.rs detects the hook)",
+           "numpy (LAPACK eigenvalues of the companion matrix) as the source of reference roots for the one-to-one matching; every reference root is certified by exact rational evaluation before it is used",
            "the cfg(ohsl_verif) recording hook in src/complex/elementary.rs (/repo commit 05bbbd0): the logged (argument, result) bits of "
            "Complex::sqrt/pow/polar are taken as what libm returned",
-           "python driver (generators, exact Fraction evaluation of p(z), comparators, classification of failing inputs by the model's trace)",
+           "python driver (generators, exact Fraction evaluation of p(z), comparators, classification of failing inputs by the model's trace; a known-finding key is granted only while MR, MT, frac[] of the source are the pinned values)",
            "hand-written Gallina model coq/Model/Roots.v tied to src/polynomial/mod.rs:190-347 by bit-for-bit differential execution",
            "driver/translate.py (LAGUER_MR, LAGUER_MT, frac[] regenerated from the source on every run)"]
 ASSUMPTIONS = ["Rust semantics of Vec/usize/f64 as modelled (IEEE-754 binary64, no fused multiply-add, round-to-nearest)",
@@ -27,7 +36,8 @@ ASSUMPTIONS = ["Rust semantics of Vec/usize/f64 as modelled (IEEE-754 binary64, 
                "five failure classes are recorded known findings (KF-C10-A/B/C/E/F)"]
 UNPROVED = ["normwise backward error of the returned values in f64 (tie + search; false of the code on the classes KF-C10-A/B/C/E/F)",
             "convergence of Laguerre's iteration (false of the code from x = 0 on nearly symmetric deflated polynomials: KF-C10-A)",
-            "one-to-one correspondence with the true roots (search on well-conditioned prescribed-root families)",
+            "one-to-one correspondence with the true roots (search: prescribed-root families, and on every other case of degree >= 2 certified reference roots from an independent solver, when well separated and well conditioned)",
+            "statelessness of Polynomial::roots (search: the same object asked twice / cloned / fresh, bitwise)",
             "that libm's sqrt/pow return square/cube roots (hypotheses of quadratic_factors / cubic_factors; in the tie they are recorded values)"]
 
 MANIFEST = dict(
@@ -54,7 +64,11 @@ MANIFEST = dict(
           "drift, -E overflow of |p(x)| in the convergence test, -F cancellation in the Cardano path). Those halves are covered by a "
           "bit-for-bit tie of the float model to the implementation on every generated case (the three libm primitives as a recorded "
           "oracle table) and by a failing-input search with the property statement as oracle; a failing input is downgraded to a known "
-          "finding only if the model reproduces the implementation bit for bit on it and the model's trace shows the recorded cause."),
+          "finding only if the model reproduces the implementation bit for bit on it, the model's trace shows the recorded cause, and the Laguerre constants MR, MT, frac[] "
+          "of the source (which are regenerated into the model, so the model follows an edit of them) are the pinned ones. The search covers, besides random and "
+          "prescribed-root polynomials, structured special-value families (axis-aligned / unit-modulus / diagonal coefficient alphabets, prescribed discriminant classes, "
+          "unit multiples and rotations, power-of-two scalings, monomials and high zero multiplicities, negative zeros, extreme leading / trailing coefficients, the same "
+          "object asked twice) and matches the returned values one to one against certified reference roots whenever those are well separated and well conditioned."),
     note="partial: structure and closed forms proved exactly; float accuracy and convergence by tie + search; 5 open known findings",
     technique="Coq proof (abstract ring/field, loop invariants, field/ring) + differential execution of the float model with an oracle table for libm calls",
     design="DESIGN.md section 7 (C10), 8 (KF-C10-A/B/C), 9 (hook); findings/C10-known-findings.txt (KF-C10-E, -F)")
@@ -281,6 +295,234 @@ def generate(rng, tier):
         both(cases, 'f64', co, "degree0")
     both(cases, 'cplx', [1 + 2j], "degree0")
     both(cases, 'f64', [], "empty")
+    # --- structured special-value families (findings/special-values-specA/C10-table.md)
+    cases += gen_special(rng.fork("special"), tier)
+    return cases
+
+def mk_twice(elt, coeffs, f1, f2, coeffs2=None):
+    """history / same object (executor kind roots.twice, search only: no model term).  coeffs2: assigned through
+    Polynomial::coeffs() between the two calls; meta["coeffs"] is always the polynomial the SECOND call sees"""
+    coeffs = list(coeffs)
+    line = "roots.twice %s %d %d" % (tok_vec(elt, coeffs), 1 if f1 else 0, 1 if f2 else 0)
+    cur = coeffs
+    if coeffs2 is not None:
+        cur = list(coeffs2); line += " " + tok_vec(elt, cur)
+    meta = {"kind": "twice", "coeffs": [[complex(c).real, complex(c).imag] for c in cur], "first": bool(f1), "refine": bool(f2)}
+    if coeffs2 is not None: meta["before"] = [[complex(c).real, complex(c).imag] for c in coeffs]
+    return Case(elt, line, None, meta=meta, family="twice-%d%d%s" % (f1, f2, "-edited" if coeffs2 is not None else ""), nontrivial=len(cur) >= 3, tol=0.0, exact_bits=True)
+
+# ----------------------------------------------------------------------------- structured special-value families
+# Value classes per coefficient: 0, -0.0, +-1, +-i, +-2, +-2i, 1/2, unit modulus off the axes, the diagonals 1+-i;
+# structure classes: discriminant of the quadratic / (d0, d1, dis) of the cubic on an axis or zero, roots from a small
+# exact alphabet (equal, opposite, conjugate, on both axes), every coefficient multiplied by a unit (i p, -p, (0.6+0.8i) p),
+# the variable rotated by a unit (p(x/u) u^n), all coefficients scaled by 2^k, monomials / x^k q(x) / all-equal /
+# alternating / binomial coefficients, leading or trailing coefficient 2^+-16 times the others, the same structures on
+# both sides of the closed-form / iterative boundary (degree 3 | 4).  Quick tier: a seed-rotated sample of each class;
+# thorough tier: the exhaustive or much larger version.
+AXIS = [1, -1, 1j, -1j, 2, -2, 2j, -2j, 0.5, -0.5j]
+UNIT = [complex(0.6, 0.8), complex(-0.8, 0.6), complex(0.6, -0.8)]
+DIAG = [1 + 1j, 1 - 1j, -1 + 1j]
+ALPHA = [0j] + [complex(z) for z in AXIS + UNIT + DIAG]
+ALPHA_DYADIC = [0j] + [complex(z) for z in AXIS + DIAG]           # exactly representable, products stay exact
+REALS = [0.0, 1.0, -1.0, 2.0, -2.0, 0.5, -0.5, 3.0]
+ROOT_ALPHA = [complex(z) for z in [0, 1, -1, 1j, -1j, 2, -2, 2j, -2j, 0.5, -0.5j, 1 + 1j, 1 - 1j, -1 + 1j, -1 - 1j, 0.75 + 1j]]
+UNITS_EXACT = [-1, 1j, -1j]
+
+def cdivq(a, b):
+    d = b[0]*b[0] + b[1]*b[1]
+    return ((a[0]*b[0] + a[1]*b[1]) / d, (a[1]*b[0] - a[0]*b[1]) / d)
+
+def emit(cases, coeffs, family, prescribed=None, force_cplx=False):
+    """python numbers (low to high) -> the two cases (refine off / on); the element kind is f64 when every imaginary part
+    is +0.0 (the sign bit counts: a -0.0 imaginary part can only be passed through the complex entry point)"""
+    cs = [complex(c) for c in coeffs]
+    real = all(c.imag == 0 and math.copysign(1.0, c.imag) > 0 for c in cs) and not force_cplx
+    if real: both(cases, 'f64', [c.real for c in cs], family, prescribed)
+    else: both(cases, 'cplx', cs, family, prescribed)
+
+def emit_exact(cases, p, family, prescribed=None):
+    """exact complex-rational coefficients; the prescribed roots are kept only when every coefficient is exact in f64"""
+    elt, coeffs, exact = to_float_coeffs(p)
+    both(cases, elt, coeffs, family, prescribed=prescribed if exact else None)
+    return exact
+
+def gen_special(rng, tier):
+    cases = []
+    quick = tier == "quick"
+    def N(q, t): return q if quick else t
+    # S1 -- coefficients drawn independently from the alphabet, degrees 1..5 (both sides of the degree 3 | 4 boundary)
+    g = rng.fork("alpha-coeffs")
+    for deg, cnt in [(1, N(6, 100)), (2, N(18, 400)), (3, N(18, 300)), (4, N(10, 100)), (5, N(4, 30))]:
+        for t in range(cnt):
+            co = [g.choice(ALPHA) for _ in range(deg + 1)]
+            if co[-1] == 0: co[-1] = complex(g.choice(ALPHA[1:]))
+            emit(cases, co, "alpha-coeffs-deg%d" % deg)
+    for deg, cnt in [(1, N(3, 30)), (2, N(8, 120)), (3, N(8, 120)), (4, N(6, 60)), (6, N(2, 20))]:
+        for t in range(cnt):
+            co = [g.choice(REALS) for _ in range(deg + 1)]
+            if co[-1] == 0: co[-1] = g.choice(REALS[1:])
+            emit(cases, co, "alpha-coeffs-real-deg%d" % deg)
+    # S2 -- quadratics with a prescribed DISCRIMINANT class: zero, +-real, +-imaginary (squares and non-squares), off-axis square
+    g = rng.fork("quad-disc")
+    DISC = [(0, 0j), (1, 1), (4, 2), (-1, 1j), (-4, 2j), (2j, 1 + 1j), (-2j, 1 - 1j), (8j, 2 + 2j), (3 + 4j, 2 + 1j),
+            (2, None), (-2, None), (1j, None), (-1j, None), (4j, None), (-4j, None), (3, None), (-3j, None)]
+    todo = [(a, b, D) for a in AXIS + DIAG for b in ALPHA_DYADIC for D in DISC]
+    for (a, b, (D, sq)) in (g.shuffle(todo)[:N(24, 400)]):
+        aq, bq, Dq = cfrac(a), cfrac(b), cfrac(D)
+        cq = cdivq(csub(cmul(bq, bq), Dq), cmul((Fraction(4), Fraction(0)), aq))
+        pres = None
+        if sq is not None and sq != 0:
+            sqq = cfrac(sq); two_a = cmul((Fraction(2), Fraction(0)), aq); mb = (-bq[0], -bq[1])
+            pres = [cdivq(cadd(mb, sqq), two_a), cdivq(csub(mb, sqq), two_a)]
+        emit_exact(cases, [cq, bq, aq], "quad-disc-" + ("zero" if D == 0 else "real" if complex(D).imag == 0 else "imag" if complex(D).real == 0 else "offaxis"), pres)
+    # S3 -- cubics by the class of (d0, d1, dis): shifted pure cubes a (x-s)^3 - t (d0 = 0), depressed cubics (b = 0),
+    #       a double root (dis = 0), roots in arithmetic progression (d1 = 0), three alphabet roots
+    g = rng.fork("cubic-class")
+    for t in range(N(24, 300)):
+        k = t % 5
+        a = cfrac(g.choice(AXIS + DIAG))
+        pres = None
+        if k == 0:
+            s0, tt = cfrac(g.choice(ROOT_ALPHA)), cfrac(g.choice(ALPHA_DYADIC))
+            p = expand_roots([s0, s0, s0], a); p[0] = csub(p[0], tt); name = "shifted-cube"
+        elif k == 1:
+            p = [cfrac(g.choice(ALPHA_DYADIC)), cfrac(g.choice(ALPHA_DYADIC)), (Fraction(0), Fraction(0)), a]; name = "depressed"
+        elif k == 2:
+            r, s0 = cfrac(g.choice(ROOT_ALPHA)), cfrac(g.choice(ROOT_ALPHA))
+            pres = [r, r, s0]; p = expand_roots(pres, a); name = "double-root"
+        elif k == 3:
+            s0, dl = cfrac(g.choice(ROOT_ALPHA)), cfrac(g.choice(ROOT_ALPHA[1:]))
+            pres = [csub(s0, dl), s0, cadd(s0, dl)]; p = expand_roots(pres, a); name = "arith-progression"
+        else:
+            pres = [cfrac(z) for z in g.shuffle(ROOT_ALPHA)[:3]]; p = expand_roots(pres, a); name = "alpha-roots"
+        emit_exact(cases, p, "cubic-" + name, pres)
+    # S4 -- roots drawn from the exact alphabet (0, +-1, +-i, +-2, +-2i, 1/2, -i/2, +-1+-i), distinct or with repetitions,
+    #       degrees 2..8 (the same root structures on both sides of the degree 3 | 4 boundary), leading coefficient on an axis / diagonal
+    g = rng.fork("alpha-roots")
+    for deg in range(2, 9):
+        for t in range(N(3, 24)):
+            if t % 3 == 2: pres = [cfrac(g.choice(ROOT_ALPHA)) for _ in range(deg)]            # repetitions likely
+            else: pres = [cfrac(z) for z in g.shuffle(ROOT_ALPHA)[:deg]]
+            emit_exact(cases, expand_roots(pres, cfrac(g.choice(AXIS + DIAG))), "alpha-roots" + ("-rep" if t % 3 == 2 else ""), pres)
+    # S5 -- every coefficient multiplied by a unit (-1, i, -i exactly; 0.6+0.8i rounded), and the variable rotated by a unit
+    #       (coefficients a_k u^(n-k): the roots are u r); bases: real-rooted, complex, conjugate pairs, roots at zero
+    g = rng.fork("unit")
+    for t in range(N(16, 160)):
+        deg = g.choice([1, 2, 3, 4, 4, 5, 6, 8, 10, 12])
+        fam = g.choice(["separated-real", "separated-real", "separated-complex", "conjugate", "zero-roots"])
+        rs = gen_prescribed(g, fam, deg)
+        if len(rs) != deg: continue
+        p = expand_roots(rs, (Fraction(g.choice([1, -1, 2, 3])), Fraction(0)))
+        mode = g.below(3)
+        if mode == 0:
+            u = cfrac(g.choice(UNITS_EXACT))
+            emit_exact(cases, [cmul(c, u) for c in p], "unit-multiple", rs)
+        elif mode == 1:
+            u = cfrac(g.choice(UNITS_EXACT)); q = []; pw = (Fraction(1), Fraction(0)); pows = []
+            for k in range(deg + 1): pows.append(pw); pw = cmul(pw, u)
+            q = [cmul(p[k], pows[deg - k]) for k in range(deg + 1)]
+            emit_exact(cases, q, "unit-rotation", [cmul(r, u) for r in rs])
+        else:
+            elt, co, exact = to_float_coeffs(p)
+            u = g.choice(UNIT)
+            emit(cases, [complex(c) * u for c in co], "unit-multiple-offaxis")
+    # S6 -- all coefficients scaled by the same power of two (the roots do not move; absolute thresholds do)
+    g = rng.fork("pow2")
+    # 2^+-60 puts every coefficient below / above f64::EPSILON and its reciprocal; not beyond: the cubic closed form takes the
+    # complex sqrt of a form of degree 6 in the coefficients and Complex::abs squares once more (overflow for |a_k| > ~2^85)
+    ks = [-60, 60, -30, 30]
+    for t in range(N(24, 200)):
+        k = ks[t % len(ks)]
+        mode = g.below(4)
+        if mode == 0:
+            deg = g.choice([1, 2, 3, 4, 4, 5, 6, 9])
+            fam = g.choice(["separated-real", "separated-complex", "conjugate", "repeated", "zero-roots"])
+            rs = gen_prescribed(g, fam, deg)
+            if len(rs) != deg: continue
+            elt, co, exact = to_float_coeffs(expand_roots(rs, (Fraction(g.choice([1, -1, 2, 3, -5])), Fraction(0))))
+            pres = rs if exact else None
+        elif mode == 1:
+            deg = g.choice([2, 3]); co = [g.choice(ALPHA) for _ in range(deg + 1)]; pres = None
+            if co[-1] == 0: co[-1] = 1 + 0j
+        elif mode == 2:
+            deg = g.choice([2, 3, 4, 4, 5]); co = [float(g.range(-6, 6)) for _ in range(deg + 1)]; pres = None
+            if co[-1] == 0: co[-1] = 1.0
+        else:
+            deg = g.choice([2, 3]); pres = [cfrac(z) for z in g.shuffle(ROOT_ALPHA)[:deg]]
+            elt, co, exact = to_float_coeffs(expand_roots(pres, cfrac(g.choice(AXIS + DIAG))))
+        sc = 2.0 ** k
+        emit(cases, [complex(c) * sc for c in co], "pow2-scaled-2^%d" % k, pres)
+    # S7 -- zero structure: monomials a x^n, x^k q(x) with a zero root of high multiplicity, x^(n-1) (x - r); equal-modulus
+    #       and tie structures: all coefficients equal, alternating signs, binomial coefficients ((x+1)^n, one n-fold root)
+    g = rng.fork("zero-structure")
+    degs = range(1, 13)
+    for n in degs:
+        for a in ([g.choice(ALPHA[1:])] if quick else g.shuffle(ALPHA[1:])[:6]):
+            emit(cases, [0j] * n + [complex(a)], "monomial")
+    for t in range(N(8, 60)):
+        n = g.range(4, 12); k = g.choice([n - 1, n - 1, n - 2, 4, 5, g.range(4, n - 1)])
+        k = min(k, n - 1)
+        rs = gen_prescribed(g, "separated-real" if g.chance(1, 2) else "separated-complex", n - k)
+        rs = [r for r in rs if r != (Fraction(0), Fraction(0))]
+        while len(rs) < n - k: rs.append((Fraction(7, 2), Fraction(0)))
+        pres = [(Fraction(0), Fraction(0))] * k + rs
+        emit_exact(cases, expand_roots(pres, cfrac(g.choice([1, -1, 1j, 2]))), "zero-multiplicity", pres)
+    for n in (range(1, 13) if not quick else g.shuffle(list(range(1, 13)))[:4]):
+        a = g.choice(ALPHA[1:])
+        emit(cases, [complex(a)] * (n + 1), "all-equal")
+        emit(cases, [complex(a) * (-1) ** k for k in range(n + 1)], "alternating")
+        if n <= 10: emit(cases, [float(math.comb(n, k)) for k in range(n + 1)], "binomial")
+    # S8 -- negative zeros: every vanishing coefficient as -0.0 (real entry point), and -0.0 real / imaginary parts (complex entry point)
+    g = rng.fork("negzero")
+    for t in range(N(9, 90)):
+        deg = g.choice([1, 2, 2, 3, 3, 4, 5, 7])
+        co = [float(g.range(-4, 4)) if g.chance(1, 2) else 0.0 for _ in range(deg + 1)]
+        if co[-1] == 0: co[-1] = float(g.choice([1, -1, 2]))
+        if all(c != 0 for c in co): co[g.below(deg)] = 0.0
+        mode = t % 3
+        if mode == 0:
+            emit(cases, [(-0.0 if c == 0 else c) for c in co], "negzero-real")
+        elif mode == 1:
+            emit(cases, [complex(-0.0 if c == 0 else c, -0.0) for c in co], "negzero-cplx", force_cplx=True)
+        else:
+            emit(cases, [complex(c, -0.0 if g.chance(1, 2) else 0.0) if c != 0 else complex(0.0 if g.chance(1, 2) else -0.0, -0.0 if g.chance(1, 2) else 0.0)
+                         for c in co], "negzero-mixed", force_cplx=True)
+    # S9 -- the leading or the trailing coefficient 2^+-16 times the others (inside the ratio 1e6), on an axis or a diagonal
+    g = rng.fork("lead-trail")
+    for t in range(N(9, 100)):
+        deg = g.choice([1, 2, 3, 4, 5, 8])
+        cplx = g.chance(1, 2)
+        co = [complex(g.range(1, 9) * g.choice([1, -1]), (g.range(-9, 9) if cplx and g.chance(1, 2) else 0)) for _ in range(deg + 1)]
+        sc = 2.0 ** (16 if g.chance(1, 2) else -16)
+        u = complex(g.choice([1, -1] + ([1j, -1j, 1 + 1j] if cplx else [])))
+        which = t % 3
+        if which == 0: co[-1] = u * sc
+        elif which == 1: co[0] = u * sc
+        else: co[-1] = u * sc; co[0] = complex(g.choice([1, -1])) * sc
+        if deg >= 3 and g.chance(1, 3): co[g.range(1, deg - 1)] = 0j
+        emit(cases, co, "lead-trail-2^%s16" % ("+" if sc > 1 else "-"))
+    # S10 -- history: the SAME polynomial object asked twice (every ordered pair of refine flags), its clone, a fresh object
+    g = rng.fork("twice")
+    for t in range(N(6, 40)):
+        deg = g.choice([1, 2, 3, 4, 5, 7])
+        if g.chance(1, 2):
+            co = [float(g.range(-6, 6)) for _ in range(deg + 1)]
+            if co[-1] == 0: co[-1] = 1.0
+            elt = 'f64'
+        else:
+            co = [complex(g.choice(ALPHA)) for _ in range(deg + 1)]
+            if co[-1] == 0: co[-1] = 1j
+            elt = 'cplx'
+        for f1 in (0, 1):
+            for f2 in (0, 1):
+                cases.append(mk_twice(elt, co, f1, f2))
+        # ... and with the coefficients replaced through coeffs() between the calls (same degree; another degree)
+        def other(d):
+            c2 = [float(g.range(-6, 6)) for _ in range(d + 1)] if elt == 'f64' else [complex(g.choice(ALPHA)) for _ in range(d + 1)]
+            if c2[-1] == 0: c2[-1] = 2.0 if elt == 'f64' else -1j
+            return c2
+        cases.append(mk_twice(elt, co, t % 2, (t // 2) % 2, other(deg)))
+        cases.append(mk_twice(elt, co, (t + 1) % 2, t % 2, other(g.choice([d for d in (1, 2, 3, 4, 6) if d != deg]))))
     return cases
 
 def case_from_json(j):
@@ -291,6 +533,11 @@ def case_from_json(j):
     pres = None
     if "prescribed" in m:
         pres = [(Fraction(a), Fraction(b)) for a, b in m["prescribed"]]
+    if m.get("kind") == "twice":
+        if "before" in m:
+            bs = [complex(a, b) for a, b in m["before"]]
+            return mk_twice(elt, [c.real for c in bs] if elt == 'f64' else bs, m["first"], m["refine"], coeffs)
+        return mk_twice(elt, coeffs, m["first"], m["refine"])
     c = mk(elt, coeffs, m["refine"], j.get("family", "corpus"), pres)
     if "expect_key" in m: c.meta["expect_key"] = m["expect_key"]
     return c
@@ -305,8 +552,50 @@ def fail(case, kind, text, root=None):
     FAILED_CASES[case.line] = case
     return kind + ": " + text
 
+def parse_vectors(items):
+    """decoded executor items -> list of vectors of (re bits, im bits), or ('P', class)"""
+    if items and items[-1][0] == 'P': return ('P', items[-1][1])
+    out = []; pos = 0
+    while pos < len(items):
+        n = items[pos][1]; pos += 1
+        out.append([(canon_bits(items[pos + 2*k][1]), canon_bits(items[pos + 2*k + 1][1])) for k in range(n)])
+        pos += 2 * n
+    return out
+
+def oracle_twice(case, items):
+    """a root finder has no state: the second call on the same object, the call on its clone and the call on a fresh
+    object must give the same values (bitwise; NaN canonical)"""
+    m = case.meta
+    vs = parse_vectors(items)
+    n = len(m["coeffs"]) - 1
+    if isinstance(vs, tuple):
+        if n >= 1 and complex(*m["coeffs"][-1]) != 0:
+            return fail(case, "count", "the root finder panicked (%s) when the same object was asked twice (degree %d)" % (vs[1], n))
+        return None
+    if len(vs) != 3:
+        return fail(case, "history", "malformed answer of roots.twice")
+    second, cloned, fresh = vs
+    # The property speaks about each answer, not about bit identity between calls: an answer that differs from the fresh
+    # object's is put to the property statement itself (count, finite, backward error, one-to-one); identical answers are the
+    # business of the single-call cases (which carry the model term and the known-finding classification).
+    for name, v in (("the second call on the SAME object (after roots(refine=%s)%s)" % (m["first"], ", coefficients replaced through coeffs()" if "before" in m else ""), second),
+                    ("the call on the CLONE of an object that was asked before", cloned)):
+        if v == fresh: continue
+        HISTORY_DIFFERS[0] += 1
+        sub = Case(case.elt, case.line + " #" + name[:12], None, meta={"coeffs": m["coeffs"], "refine": m["refine"]}, family=case.family)
+        its = [('i', len(v))] + [x for a, b in v for x in (('f', a), ('f', b))]
+        r = oracle(sub, its)
+        if r:
+            FAILS.pop(sub.line, None); FAILED_CASES.pop(sub.line, None)
+            return fail(case, "history", "%s fails the property where a fresh object's answer is different: %s" % (name, r))
+    return None
+
+HISTORY_DIFFERS = [0]
+
 def oracle(case, items):
     m = case.meta
+    if m.get("kind") == "twice":
+        return oracle_twice(case, items)
     coeffs = [complex(a, b) for a, b in m["coeffs"]]
     refine = m["refine"]
     a = parse_answer(items)
@@ -364,7 +653,53 @@ def oracle(case, items):
                     if not hit:
                         return fail(case, "matching", "prescribed root %r (separation %.3g) is matched by no returned value: %r (refine=%s)" % (pc[i], sep, roots, refine))
                     used[min(hit, key=lambda k: abs(roots[k] - pc[i]))] = True
+                return None
+    # one-to-one correspondence WITHOUT prescribed roots: reference roots from an independent solver (numpy: eigenvalues of the
+    # companion matrix), each CERTIFIED by exact evaluation, and used only when they are well separated and well conditioned
+    # (same thresholds as above).  Every returned value passing the backward-error test says nothing about multiplicities:
+    # [r1, r1] for a polynomial with roots r1 != r2 passes it; this clause does not.
+    if n >= 2:
+        pc = reference_roots(coeffs)
+        if pc is not None:
+            am = math.sqrt(float(amax))
+            sep = min(abs(pc[i] - pc[j]) for i in range(n) for j in range(i))
+            ok = sep >= 0.1
+            if ok:
+                for i in range(n):
+                    dp = abs(coeffs[-1])
+                    for jx in range(n):
+                        if jx != i: dp *= abs(pc[i] - pc[jx])
+                    if dp == 0 or not math.isfinite(dp): ok = False; break
+                    kappa = am * max(1.0, abs(pc[i])) ** n / dp
+                    if not (kappa * float(theta) <= 1e-7): ok = False; break
+                    # certificate: the reference value itself is within 1e-9 max(1,|r|) of a true root (first order, exact residual)
+                    be = math.sqrt(float(fabs2(peval_exact(coeffs, pc[i])) / (amax * (max(Fraction(1), fabs2(cfrac(pc[i]))) ** n))))
+                    if not (be * kappa <= 1e-9): ok = False; break
+            if ok:
+                REF_MATCH_CHECKED[0] += 1
+                used = [False] * n
+                for i in range(n):
+                    tol = 1e-6 * max(1.0, abs(pc[i]))
+                    hit = [k for k in range(n) if not used[k] and abs(roots[k] - pc[i]) <= tol]
+                    if not hit:
+                        return fail(case, "matching", "reference root %r (certified, separation %.3g) is matched by no returned value: %r (refine=%s, coefficients %r)" % (pc[i], sep, roots, refine, coeffs))
+                    used[min(hit, key=lambda k: abs(roots[k] - pc[i]))] = True
     return None
+
+REF_MATCH_CHECKED = [0]
+
+def reference_roots(coeffs):
+    """the n roots by numpy (LAPACK eigenvalues of the companion matrix): independent of the code under test; None if unusable"""
+    import numpy as np
+    n = len(coeffs) - 1
+    try:
+        with np.errstate(all='ignore'):
+            r = np.roots(np.array(list(reversed(coeffs)), dtype=complex))
+    except Exception:
+        return None
+    r = [complex(z) for z in r]
+    if len(r) != n or not all(math.isfinite(z.real) and math.isfinite(z.imag) for z in r): return None
+    return r
 
 # ----------------------------------------------------------------------------- known-finding keys, decided by the MODEL's trace
 TRACES = None
@@ -387,6 +722,10 @@ def classify(case, items, kind, root=None):
     """the key of DESIGN section 7/C10 for a failing input, or None.  Decided by the model's trace, and only
     if the model reproduces the implementation's answer bit for bit on this very input."""
     global TRACES
+    # the keys describe the PINNED algorithm.  MR, MT and frac[] are regenerated from the source into the model, so the model
+    # follows an edit of them; a key is granted only while they have the values the recorded findings were established for
+    if not constants_pinned():
+        return None
     if TRACES is None or case.line not in TRACES:
         FAILED_CASES.setdefault(case.line, case)
         traces_for_failures(FAILED_CASES)
@@ -444,10 +783,35 @@ def classify(case, items, kind, root=None):
     # KF-C10-C: unpolished deflation drift: degree >= 4, every call converged / stalled with finite values
     if kind == "backward-error" and (not refine) and n >= 4 and all(t[0] in (0, 1) for t in tr) and all(t[3] == 1 for t in tr):
         return "KF-C10-C"
+    # KF-C10-G (PROPOSED key: not in KNOWN_FINDINGS.txt, so the input is reported as a violation until the finding is recorded;
+    #           findings/special-values-specA/C10-finding-polish-collapse.md): the same drift WITH refinement -- degree >= 4, every
+    #           laguer call converged / stalled with finite values, and two polishing calls that were entered with DIFFERENT
+    #           unpolished values end on the SAME root, so a well-separated true root is matched by no returned value
+    if kind == "matching" and refine and n >= 4 and len(polish) == n and all(t[0] in (0, 1) and t[3] == 1 for t in tr):
+        outs = [complex(bits_f64(x), bits_f64(y)) for x, y in bits]
+        for i in range(n):
+            for jx in range(i):
+                if abs(outs[i] - outs[jx]) <= 1e-6 * max(1.0, abs(outs[i])) and abs(polish[i][5] - polish[jx][5]) > 1e-6 * max(1.0, abs(polish[i][5])):
+                    return "KF-C10-G"
     return None
 
 KEY_COUNTS = {}
 PRIM_COV = {}
+
+PINNED_LAGUER = {"LAGUER_MR": 8, "LAGUER_MT": 10, "LAGUER_FRAC": [0.0, 0.5, 0.25, 0.75, 0.13, 0.38, 0.62, 0.88, 1.0]}
+_PINNED = [None]
+
+def constants_pinned():
+    """True iff the Laguerre constants of the CURRENT source (the ones regenerated into gen/Params.v) are the pinned ones"""
+    if _PINNED[0] is None:
+        try:
+            import translate
+            d = translate.params()
+            _PINNED[0] = (d["LAGUER_MR"] == PINNED_LAGUER["LAGUER_MR"] and d["LAGUER_MT"] == PINNED_LAGUER["LAGUER_MT"]
+                          and [float(t.replace("_", "")) for t in d["LAGUER_FRAC"]] == PINNED_LAGUER["LAGUER_FRAC"])
+        except Exception:
+            _PINNED[0] = False
+    return _PINNED[0]
 
 def entry_verdict(w, keys, res):
     """one recorded libm call against an independent 40-digit reference: 'ok' | 'skip' (outside the reference range) | a description.
@@ -533,6 +897,9 @@ def extra_coverage():
     return {"libm_calls_recorded": sum(logs), "cases_with_oracle_table": sum(1 for n in logs if n > 0),
             "largest_oracle_table": max(logs) if logs else 0, "executor_without_hook_cases": nohook,
             "one_to_one_matching_evaluated_on": MATCH_CHECKED[0],
+            "one_to_one_matching_against_certified_reference_roots_evaluated_on": REF_MATCH_CHECKED[0],
+            "laguerre_constants_are_the_pinned_ones": constants_pinned(),
+            "history_answers_that_differ_from_the_fresh_object": HISTORY_DIFFERS[0],
             "oracle_failures_by_kind": byfail, "oracle_failures_by_known_finding_key": dict(KEY_COUNTS),
             "thresholds": {"theta_polished": THETA_POLISHED, "theta_unpolished": THETA_UNPOLISHED,
                            "matching": "1e-6 * max(1,|r|) when separation >= 0.1 and kappa * theta <= 1e-7"}}
